@@ -30,15 +30,16 @@ def token_ns(tok):
     return {'##local': '', '##targetNamespace': TNS}.get(tok, tok)
 
 
-def denote(c):
-    """The set of universe names admitted by constraint c."""
+def denote(c, tns=TNS):
+    """The set of universe names admitted by constraint c (tns: the target namespace of the schema document that
+    declares the wildcard; only ##other depends on it, the other kinds carry their namespaces resolved)."""
     kind, nsset, notq = c
     out = set()
     for ns, ln in UNIVERSE:
         if kind == 'any':
             ok = True
         elif kind == 'other':
-            ok = ns not in ('', TNS)
+            ok = ns not in ('', tns)
         elif kind == 'in':
             ok = ns in nsset
         else:
@@ -48,10 +49,10 @@ def denote(c):
     return frozenset(out)
 
 
-def render_attrs(c):
-    """XSD attribute text for the constraint (without processContents)."""
+def render_attrs(c, tns=TNS):
+    """XSD attribute text for the constraint (without processContents), in a schema document of target namespace tns."""
     kind, nsset, notq = c
-    inv = {'': '##local', TNS: '##targetNamespace'}
+    inv = {'': '##local', tns: '##targetNamespace'}
     toks = ' '.join(inv.get(n, n) for n in sorted(nsset))
     if kind == 'any':
         s = 'namespace="##any"'
